@@ -189,24 +189,65 @@ package queryparser
 //@   requires p != nil && p.lexer != nil && 0 <= p.lexer.lastPos && p.lexer.lastPos <= len(p.lexer.input)
 //@   raises always
 
-// parse functions: consume at least one item, return a non-nil tree, or panic with an error (via errorf)
-//@ func [C09] (*parser).parseExpr(p) (e)
+// ---- message trees (C11, C09): ptW(e, lo, hi) = the tree below e is complete (every node has its oneof set, the
+// wrapped message and all operands are present) and all its objects lie in the window hi \ lo (allocated by hi, not
+// yet by lo); leafOf(x, e) = x is the Equal message of a comparison leaf below e. Both are recursive over the tree
+// and given by axioms per node kind; they read the structure of the tree only (not Column/Value/Placeholder), so
+// binding placeholders does not change them. Every object the axioms of ptW look at is asserted to be in the window:
+// that is the condition of the generated frame rule (`frame`), which lets a tree survive writes to other objects.
+//@ pure ptW(e *updogv1.Query_Expression, lo rset, hi rset) bool reads updogv1.Query_Expression.Value, updogv1.Query_Expression_Eq.Eq, updogv1.Query_Expression_Not_.Not, updogv1.Query_Expression_And_.And, updogv1.Query_Expression_Or_.Or, updogv1.Query_Expression_Not.Expr, updogv1.Query_Expression_And.Exprs, updogv1.Query_Expression_Or.Exprs, []*updogv1.Query_Expression
+//@ frame ptW lo hi
+//@ pure ptOK(e *updogv1.Query_Expression) bool := ptW(e, rempty(), $alloc)
+//@ pure ptNew(e *updogv1.Query_Expression) bool := ptW(e, old($alloc), $alloc)
+//@ pure leafOf(x *updogv1.Query_Expression_Equal, e *updogv1.Query_Expression) bool reads updogv1.Query_Expression.Value, updogv1.Query_Expression_Eq.Eq, updogv1.Query_Expression_Not_.Not, updogv1.Query_Expression_And_.And, updogv1.Query_Expression_Or_.Or, updogv1.Query_Expression_Not.Expr, updogv1.Query_Expression_And.Exprs, updogv1.Query_Expression_Or.Exprs, []*updogv1.Query_Expression
+//@ pure kEq(e *updogv1.Query_Expression) bool := typeof(e.Value) == ptrtag(updogv1.Query_Expression_Eq)
+//@ pure kNot(e *updogv1.Query_Expression) bool := typeof(e.Value) == ptrtag(updogv1.Query_Expression_Not_)
+//@ pure kAnd(e *updogv1.Query_Expression) bool := typeof(e.Value) == ptrtag(updogv1.Query_Expression_And_)
+//@ pure kOr(e *updogv1.Query_Expression) bool := typeof(e.Value) == ptrtag(updogv1.Query_Expression_Or_)
+//@ axiom pt_elim: forall e *updogv1.Query_Expression, lo rset, hi rset :: { ptW(e, lo, hi) } ptW(e, lo, hi) ==> e != nil && (e in hi) && !(e in lo) && iref(e.Value) != nil && (iref(e.Value) in hi) && !(iref(e.Value) in lo) && (kEq(e) || kNot(e) || kAnd(e) || kOr(e))
+//@    && (kEq(e) ==> e.Value.(*updogv1.Query_Expression_Eq).Eq != nil && (e.Value.(*updogv1.Query_Expression_Eq).Eq in hi) && !(e.Value.(*updogv1.Query_Expression_Eq).Eq in lo))
+//@    && (kNot(e) ==> e.Value.(*updogv1.Query_Expression_Not_).Not != nil && (e.Value.(*updogv1.Query_Expression_Not_).Not in hi) && !(e.Value.(*updogv1.Query_Expression_Not_).Not in lo) && ptW(e.Value.(*updogv1.Query_Expression_Not_).Not.Expr, lo, hi))
+//@    && (kAnd(e) ==> e.Value.(*updogv1.Query_Expression_And_).And != nil && (e.Value.(*updogv1.Query_Expression_And_).And in hi) && !(e.Value.(*updogv1.Query_Expression_And_).And in lo) && (arr(e.Value.(*updogv1.Query_Expression_And_).And.Exprs) == nil || ((arr(e.Value.(*updogv1.Query_Expression_And_).And.Exprs) in hi) && !(arr(e.Value.(*updogv1.Query_Expression_And_).And.Exprs) in lo))))
+//@    && (kOr(e) ==> e.Value.(*updogv1.Query_Expression_Or_).Or != nil && (e.Value.(*updogv1.Query_Expression_Or_).Or in hi) && !(e.Value.(*updogv1.Query_Expression_Or_).Or in lo) && (arr(e.Value.(*updogv1.Query_Expression_Or_).Or.Exprs) == nil || ((arr(e.Value.(*updogv1.Query_Expression_Or_).Or.Exprs) in hi) && !(arr(e.Value.(*updogv1.Query_Expression_Or_).Or.Exprs) in lo))))
+//@ axiom pt_and_elim: forall e *updogv1.Query_Expression, lo rset, hi rset :: { ptW(e, lo, hi) } ptW(e, lo, hi) && kAnd(e) ==> (forall j idx(e.Value.(*updogv1.Query_Expression_And_).And.Exprs) :: ptW(e.Value.(*updogv1.Query_Expression_And_).And.Exprs[j], lo, hi))
+//@ axiom pt_or_elim: forall e *updogv1.Query_Expression, lo rset, hi rset :: { ptW(e, lo, hi) } ptW(e, lo, hi) && kOr(e) ==> (forall j idx(e.Value.(*updogv1.Query_Expression_Or_).Or.Exprs) :: ptW(e.Value.(*updogv1.Query_Expression_Or_).Or.Exprs[j], lo, hi))
+//@ axiom pt_eq_intro: forall e *updogv1.Query_Expression, lo rset, hi rset :: { ptW(e, lo, hi) } e != nil && (e in hi) && !(e in lo) && kEq(e) && iref(e.Value) != nil && (iref(e.Value) in hi) && !(iref(e.Value) in lo) && e.Value.(*updogv1.Query_Expression_Eq).Eq != nil && (e.Value.(*updogv1.Query_Expression_Eq).Eq in hi) && !(e.Value.(*updogv1.Query_Expression_Eq).Eq in lo) ==> ptW(e, lo, hi)
+//@ axiom pt_not_intro: forall e *updogv1.Query_Expression, lo rset, hi rset :: { ptW(e, lo, hi) } e != nil && (e in hi) && !(e in lo) && kNot(e) && iref(e.Value) != nil && (iref(e.Value) in hi) && !(iref(e.Value) in lo) && e.Value.(*updogv1.Query_Expression_Not_).Not != nil && (e.Value.(*updogv1.Query_Expression_Not_).Not in hi) && !(e.Value.(*updogv1.Query_Expression_Not_).Not in lo)
+//@    && ptW(e.Value.(*updogv1.Query_Expression_Not_).Not.Expr, lo, hi) ==> ptW(e, lo, hi)
+//@ axiom pt_and_intro: forall e *updogv1.Query_Expression, lo rset, hi rset :: { ptW(e, lo, hi) } e != nil && (e in hi) && !(e in lo) && kAnd(e) && iref(e.Value) != nil && (iref(e.Value) in hi) && !(iref(e.Value) in lo) && e.Value.(*updogv1.Query_Expression_And_).And != nil && (e.Value.(*updogv1.Query_Expression_And_).And in hi) && !(e.Value.(*updogv1.Query_Expression_And_).And in lo)
+//@    && (arr(e.Value.(*updogv1.Query_Expression_And_).And.Exprs) == nil || ((arr(e.Value.(*updogv1.Query_Expression_And_).And.Exprs) in hi) && !(arr(e.Value.(*updogv1.Query_Expression_And_).And.Exprs) in lo))) && (forall j idx(e.Value.(*updogv1.Query_Expression_And_).And.Exprs) :: ptW(e.Value.(*updogv1.Query_Expression_And_).And.Exprs[j], lo, hi)) ==> ptW(e, lo, hi)
+//@ axiom pt_or_intro: forall e *updogv1.Query_Expression, lo rset, hi rset :: { ptW(e, lo, hi) } e != nil && (e in hi) && !(e in lo) && kOr(e) && iref(e.Value) != nil && (iref(e.Value) in hi) && !(iref(e.Value) in lo) && e.Value.(*updogv1.Query_Expression_Or_).Or != nil && (e.Value.(*updogv1.Query_Expression_Or_).Or in hi) && !(e.Value.(*updogv1.Query_Expression_Or_).Or in lo)
+//@    && (arr(e.Value.(*updogv1.Query_Expression_Or_).Or.Exprs) == nil || ((arr(e.Value.(*updogv1.Query_Expression_Or_).Or.Exprs) in hi) && !(arr(e.Value.(*updogv1.Query_Expression_Or_).Or.Exprs) in lo))) && (forall j idx(e.Value.(*updogv1.Query_Expression_Or_).Or.Exprs) :: ptW(e.Value.(*updogv1.Query_Expression_Or_).Or.Exprs[j], lo, hi)) ==> ptW(e, lo, hi)
+//@ axiom leaf_eq: forall x *updogv1.Query_Expression_Equal, e *updogv1.Query_Expression :: { leafOf(x, e) } kEq(e) ==> (leafOf(x, e) <==> x == e.Value.(*updogv1.Query_Expression_Eq).Eq)
+//@ axiom leaf_not: forall x *updogv1.Query_Expression_Equal, e *updogv1.Query_Expression :: { leafOf(x, e) } kNot(e) ==> (leafOf(x, e) <==> leafOf(x, e.Value.(*updogv1.Query_Expression_Not_).Not.Expr))
+//@ axiom leaf_and: forall x *updogv1.Query_Expression_Equal, e *updogv1.Query_Expression :: { leafOf(x, e) } kAnd(e) ==>
+//@    (leafOf(x, e) <==> (exists j idx(e.Value.(*updogv1.Query_Expression_And_).And.Exprs) :: leafOf(x, e.Value.(*updogv1.Query_Expression_And_).And.Exprs[j])))
+//@ axiom leaf_or: forall x *updogv1.Query_Expression_Equal, e *updogv1.Query_Expression :: { leafOf(x, e) } kOr(e) ==>
+//@    (leafOf(x, e) <==> (exists j idx(e.Value.(*updogv1.Query_Expression_Or_).Or.Exprs) :: leafOf(x, e.Value.(*updogv1.Query_Expression_Or_).Or.Exprs[j])))
+
+// parse functions: consume at least one item, return a complete tree, or panic with an error (via errorf)
+//@ func [C09,C11] (*parser).parseExpr(p) (e)
 //@   requires PInv(p)
 //@   modifies p.peekCount; p.token[*]; p.lexer.rd; p.lexer.lastPos
 //@   raises may
 //@   ensures [C09] PInv(p) && e != nil && cn(p) > old(cn(p))
-//@ func [C09] (*parser).parseSimpleExpr(p) (e)
+//@   ensures [C09,C11] tree_is_complete_and_new: ptNew(e)
+//@ func [C09,C11] (*parser).parseSimpleExpr(p) (e)
 //@   requires PInv(p)
 //@   modifies p.peekCount; p.token[*]; p.lexer.rd; p.lexer.lastPos
 //@   raises may
 //@   ensures [C09] PInv(p) && e != nil && cn(p) > old(cn(p))
-//@ func [C09] (*parser).parseGroupedExpr(p) (e)
+//@   ensures [C09,C11] tree_is_complete_and_new: ptNew(e)
+//@ func [C09,C11] (*parser).parseGroupedExpr(p) (e)
 //@   requires PInv(p)
 //@   modifies p.peekCount; p.token[*]; p.lexer.rd; p.lexer.lastPos
 //@   raises may
 //@   ensures [C09] PInv(p) && e != nil && cn(p) > old(cn(p))
-//@ func [C09] (*parser).parseAndExpr(p, firstExpr) (e)
-//@   requires PInv(p) && firstExpr != nil
+//@   ensures [C09,C11] tree_is_complete_and_new: ptNew(e)
+//@ func [C09,C11] (*parser).parseAndExpr(p, firstExpr) (e)
+//@   requires PInv(p) && firstExpr != nil && ptOK(firstExpr)
+//@   ensures [C09,C11] tree_is_complete: ptOK(e)
+//@   ensures [C09,C11] new_if_the_first_operand_is: forall lo rset :: (forall r ref :: (r in lo) ==> (r in old($alloc))) && old(ptW(firstExpr, lo, $alloc)) ==> ptW(e, lo, $alloc)
 //@   modifies p.peekCount; p.token[*]; p.lexer.rd; p.lexer.lastPos
 //@   raises may
 //@   ensures [C09] PInv(p) && e != nil && cn(p) >= old(cn(p))
@@ -214,8 +255,11 @@ package queryparser
 //@   loop 1
 //@     invariant PInv(p) && cn(p) >= old(cn(p)) && len(exprs) >= 1
 //@     invariant arr(exprs) != nil && !(arr(exprs) in old($alloc))
-//@ func [C09] (*parser).parseOrExpr(p, firstExpr) (e)
-//@   requires PInv(p) && firstExpr != nil
+//@     invariant forall lo rset, j idx(exprs) :: (forall r ref :: (r in lo) ==> (r in old($alloc))) && old(ptW(firstExpr, lo, $alloc)) ==> ptW(exprs[j], radd(lo, arr(exprs)), $alloc)
+//@ func [C09,C11] (*parser).parseOrExpr(p, firstExpr) (e)
+//@   requires PInv(p) && firstExpr != nil && ptOK(firstExpr)
+//@   ensures [C09,C11] tree_is_complete: ptOK(e)
+//@   ensures [C09,C11] new_if_the_first_operand_is: forall lo rset :: (forall r ref :: (r in lo) ==> (r in old($alloc))) && old(ptW(firstExpr, lo, $alloc)) ==> ptW(e, lo, $alloc)
 //@   modifies p.peekCount; p.token[*]; p.lexer.rd; p.lexer.lastPos
 //@   raises may
 //@   ensures [C09] PInv(p) && e != nil && cn(p) >= old(cn(p))
@@ -223,7 +267,8 @@ package queryparser
 //@   loop 1
 //@     invariant PInv(p) && cn(p) >= old(cn(p)) && len(exprs) >= 1
 //@     invariant arr(exprs) != nil && !(arr(exprs) in old($alloc))
-//@ func [C09] (*parser).parseComparison(p) (e)
+//@     invariant forall lo rset, j idx(exprs) :: (forall r ref :: (r in lo) ==> (r in old($alloc))) && old(ptW(firstExpr, lo, $alloc)) ==> ptW(exprs[j], radd(lo, arr(exprs)), $alloc)
+//@ func [C09,C11] (*parser).parseComparison(p) (e)
 //@   requires PInv(p)
 //@   modifies p.peekCount; p.token[*]; p.lexer.rd; p.lexer.lastPos
 //@   raises may
@@ -231,6 +276,7 @@ package queryparser
 //@   ensures [C09] placeholder_representable: typeof(e.Value) == ptrtag(updogv1.Query_Expression_Eq) && iref(e.Value) != nil
 //@        && e.Value.(*updogv1.Query_Expression_Eq).Eq != nil && 0 <= e.Value.(*updogv1.Query_Expression_Eq).Eq.Placeholder
 //@        && e.Value.(*updogv1.Query_Expression_Eq).Eq.Placeholder <= 2147483647
+//@   ensures [C09,C11] tree_is_complete_and_new: ptNew(e)
 //@   ensures [C09] three_items: cn(p) == old(cn(p)) + 3 && p.lexer == old(p.lexer) && tokTyp(p.lexer, old(cn(p)) + 1) == 7
 //@   ensures [C09] placeholder_number_is_the_one_written: tokTyp(p.lexer, old(cn(p)) + 2) == 12 ==>
 //@        atoiOK(substr(tokVal(p.lexer, old(cn(p)) + 2), 1, len(tokVal(p.lexer, old(cn(p)) + 2))))
@@ -260,15 +306,17 @@ package queryparser
 //@   ensures [C09] not_a_number_is_zero: !(len(s) >= 2 && atoiOK(substr(s, 1, len(s)))) ==> result == 0
 
 // parse: T3 (a query exactly when there is no error), T4 (the whole input was consumed: the next item is EOF)
-//@ func [C09] (*parser).parse(p) (pq, err)
+//@ func [C09,C11] (*parser).parse(p) (pq, err)
 //@   requires PInv(p)
 //@   modifies p.peekCount; p.token[*]; p.lexer.rd; p.lexer.lastPos
 //@   ensures [C09] error_means_no_query: err != nil ==> pq == nil
 //@   ensures [C09] query_is_complete: err == nil ==> pq != nil && pq.Expr != nil
+//@   ensures [C09,C11] tree_is_complete: err == nil ==> ptOK(pq.Expr)
 //@   ensures [C09] all_input_consumed: err == nil ==> tokTyp(p.lexer, cn(p)) == 1
 //@   ensures [C09] p.lexer == old(p.lexer)
 
 // ParseQuery: never panics, returns a query exactly when there is no error, and the lexer goroutine has finished
-//@ func [C09] ParseQuery(q) (pq, err)
+//@ func [C09,C11] ParseQuery(q) (pq, err)
 //@   ensures [C09] error_means_no_query: err != nil ==> pq == nil
 //@   ensures [C09] query_is_complete: err == nil ==> pq != nil && pq.Expr != nil
+//@   ensures [C09,C11] tree_is_complete: err == nil ==> ptOK(pq.Expr)
